@@ -90,6 +90,14 @@ func (d *dumper) expr(e ast.Expr) string {
 	if c, ok := d.constVal(e); ok {
 		return c
 	}
+	// an error value written as a composite literal (`&signature.InvalidSignatureError{Msg: …}`): an error constructor
+	// like fmt.Errorf — identified by its ordinal; of its fields only wrapped errors would matter, and none of the
+	// literals in the modelled packages wraps one
+	if lit := errorLiteral(e); lit != nil && d.isErrorType(e) {
+		k := d.errOrd
+		d.errOrd++
+		return fmt.Sprintf("(.mkErr %d [])", k)
+	}
 	switch x := e.(type) {
 	case *ast.ParenExpr:
 		return d.expr(x.X)
@@ -184,6 +192,15 @@ func (d *dumper) expr(e ast.Expr) string {
 		}
 	}
 	return fmt.Sprintf("(.opaque %s)", q(src(e)))
+}
+
+// errorLiteral: `T{…}` or `&T{…}`
+func errorLiteral(e ast.Expr) *ast.CompositeLit {
+	if u, ok := e.(*ast.UnaryExpr); ok && u.Op == token.AND {
+		e = u.X
+	}
+	lit, _ := e.(*ast.CompositeLit)
+	return lit
 }
 
 func (d *dumper) zero(t types.Type) string {
